@@ -68,7 +68,11 @@ class RegexCommand(Generic[AnyStr]):
                 If a full match is found a sequence of function arguments is returned,
                 otherwise the method returns None.
         """
-        message = self.convert(data)
+        try:
+            message = self.convert(data)
+        except UnicodeDecodeError:
+            # Data which cannot be decoded for this command does not match it.
+            return None
         match = self.pattern.fullmatch(message)
         if match:
             return match.groups()
